@@ -606,6 +606,10 @@ func (l *Gpos2_2) encode() []byte {
 	if class1Count > 0 {
 		class2Count = len(l.Adjust[0])
 	}
+	if class1Count*class2Count >= 65536 {
+		// readGpos2_2 rejects such tables
+		panic("too many class pairs")
+	}
 
 	total := 16
 	total += class1Count * class2Count * recLen
